@@ -41,7 +41,7 @@ def main():
     # the worktree is first reset to exactly the delivered patch (git stash is shared between worktrees and
     # must not be used; the authors ran concurrently)
     patch = os.path.join(so, 'patch.diff')
-    sh('git checkout -- crates Cargo.toml', cwd=wt)
+    sh('git checkout -- crates Cargo.toml Cargo.lock', cwd=wt)
     rc, out = sh('git apply %s' % patch, cwd=wt)
     if rc:
         print('PATCH DOES NOT APPLY in the author worktree:', out[-300:])
